@@ -37,7 +37,7 @@ pub fn check(sc: &Scenario, out: &RunOutput) -> OracleResult {
         res.inconclusive = true;
         return res;
     };
-    let evs = w.events();
+    let evs = w.events_effective();
     let max_retx = sc.nodes[0].opts.max_retx();
     let backpressure = w.h.fault_counts.get("backpressure").copied().unwrap_or(0) > 0;
 
@@ -69,6 +69,7 @@ pub fn check(sc: &Scenario, out: &RunOutput) -> OracleResult {
     let mut sack_acks_in_row: u32 = 0;
     let mut in_rto_mode = false;
     let mut recovering = false;
+    let mut last_flight: usize = 0;
     let mut timeouts = 0u64;
     let mut fast_rtx = 0u64;
     let mut cap_hit = false;
@@ -85,6 +86,12 @@ pub fn check(sc: &Scenario, out: &RunOutput) -> OracleResult {
     let mut pending_fast: Option<(T, u16, &'static str)> = None;
     let mut rto_recovery_point: Option<u16> = None;
     let mut fast_triggers = 0u64;
+    // model of when the retransmission timer was last (re)started (RFC 6298 5.1/5.3/5.6): an ACK
+    // of new data restarts it (or stops it when nothing sent is left un-acked), a transmission
+    // starts it only when it is not running, an expiry restarts it
+    let mut timer_start: Option<T> = None;
+    // last ACK of new data that left nothing sent un-acknowledged (the timer should be off)
+    let mut idle_ack_t: Option<T> = None;
 
     for (i, (t, _, x)) in evs.iter().enumerate() {
         let t = *t;
@@ -108,6 +115,7 @@ pub fn check(sc: &Scenario, out: &RunOutput) -> OracleResult {
             X::Snap(s) => {
                 in_rto_mode = s.rto_retransmissions > 0;
                 recovering = s.recovering;
+                last_flight = s.flight_size;
                 if s.finished.is_some() && task_over.is_none() {
                     task_over = Some(t);
                     if let Some(Some(e)) = &s.finished {
@@ -145,7 +153,9 @@ pub fn check(sc: &Scenario, out: &RunOutput) -> OracleResult {
                         g.acked_at = Some(t);
                         let l = g.tx.last().map(|x| x.1).unwrap_or(0);
                         g.ever_acked_version_len = Some(l);
-                        max_acked_len = max_acked_len.max(g.tx.iter().map(|x| x.1).max().unwrap_or(0));
+                        // proven size: the cut the sender holds when the ACK arrives (a popped
+                        // probe's larger first version proves nothing to the sender)
+                        max_acked_len = max_acked_len.max(l);
                         newly = true;
                     }
                 }
@@ -157,6 +167,14 @@ pub fn check(sc: &Scenario, out: &RunOutput) -> OracleResult {
                 }
                 if newly {
                     last_new_ack_t = t;
+                    let outstanding = segs.values().any(|g| g.acked_at.is_none() && !g.tx.is_empty()) || fin.as_ref().is_some_and(|(_, _, a)| a.is_none());
+                    timer_start = outstanding.then_some(t);
+                    idle_ack_t = (!outstanding).then_some(t);
+                }
+                // the segment a fast retransmit was due for got acknowledged by a later packet of
+                // the same batch: nothing left to retransmit
+                if pending_fast.is_some_and(|(_, s, _)| segs.get(&s).is_some_and(|g| g.acked_at.is_some())) {
+                    pending_fast = None;
                 }
                 if let Some(rp) = rto_recovery_point {
                     if seq_diff(p.ack, rp) >= 0 {
@@ -200,7 +218,10 @@ pub fn check(sc: &Scenario, out: &RunOutput) -> OracleResult {
                     last_plain = Some((p.ack, p.wnd));
                     if let (Some(why), Some(fu)) = (trigger, first_unacked) {
                         fast_triggers += 1;
-                        let busy = in_rto_mode || recovering || rto_recovery_point.is_some() || hostile || backpressure;
+                        // a size probe that expired was taken back (popped, un-sent): nothing is
+                        // in flight for the sender although the wire shows the sequence number
+                        let popped_probe = last_flight == 0 && segs.get(&fu).is_some_and(|g| g.probe);
+                        let busy = in_rto_mode || recovering || rto_recovery_point.is_some() || hostile || backpressure || popped_probe;
                         if !busy && pending_fast.is_none() {
                             pending_fast = Some((t, fu, why));
                         }
@@ -239,7 +260,10 @@ pub fn check(sc: &Scenario, out: &RunOutput) -> OracleResult {
                         // a timeout: recovery is in progress until everything sent so far is acked
                         rto_recovery_point = next_unsent.map(|n| n.wrapping_sub(1));
                     }
-                    let g = segs.entry(p.seq).or_insert_with(|| Seg { tx: vec![], first_payload: p.payload.clone(), acked_at: None, probe: len > max_acked_len, ever_acked_version_len: None });
+                    // (a segment is marked as a probe when it is CUT - possibly long before it is
+                    // first sent, while the proven size was still smaller - so only a segment no
+                    // larger than the smallest segment size of the link is certainly not one)
+                    let g = segs.entry(p.seq).or_insert_with(|| Seg { tx: vec![], first_payload: p.payload.clone(), acked_at: None, probe: len > w.mss_floor, ever_acked_version_len: None });
                     let retransmission = !g.tx.is_empty();
                     if hostile {
                         g.tx.push((t, len, is_rto));
@@ -249,6 +273,11 @@ pub fn check(sc: &Scenario, out: &RunOutput) -> OracleResult {
                     if let Some(ta) = g.acked_at {
                         if ta < t && !backpressure {
                             res.violate(P, "retransmitted-after-ack", t, format!("seq {} (len {}) emitted at {} although it was acknowledged at {}", p.seq, len, crate::hist::fmt_t(t), crate::hist::fmt_t(ta)));
+                            if let Some(v) = res.violations.last_mut() {
+                                if v.tag == "retransmitted-after-ack" && v.t == t {
+                                    v.offset = Some(p.seq as u64);
+                                }
+                            }
                         }
                     }
                     // (f) stable content; only a never-acknowledged probe may be split
@@ -261,12 +290,14 @@ pub fn check(sc: &Scenario, out: &RunOutput) -> OracleResult {
                         } else {
                             let last_len = g.tx.last().unwrap().1;
                             if len != last_len {
-                                // a re-cut: allowed only for a never-acked probe, as a shorter prefix
-                                let prefix_ok = len < first_len && p.payload[..] == g.first_payload[..len];
+                                // a re-cut: allowed only for a never-acked probe; the two cuts
+                                // start at the same stream offset, so one is a prefix of the other
+                                let n = len.min(first_len);
+                                let prefix_ok = p.payload[..n] == g.first_payload[..n];
                                 if !g.probe {
-                                    res.violate(P, "non-probe-resegmented", t, format!("seq {} first sent with {} bytes (not larger than the proven size {}) re-emitted with {} bytes", p.seq, first_len, max_acked_len, len));
+                                    res.violate(P, "non-probe-resegmented", t, format!("seq {} first sent with {} bytes (not larger than the smallest segment size {}: cannot be a size probe) re-emitted with {} bytes", p.seq, first_len, w.mss_floor, len));
                                 } else if !prefix_ok {
-                                    res.violate(P, "probe-recut-not-a-prefix", t, format!("probe seq {} first sent with {} bytes re-emitted with {} bytes which is not a shorter prefix of it", p.seq, first_len, len));
+                                    res.violate(P, "probe-recut-not-a-prefix", t, format!("probe seq {} first sent with {} bytes re-emitted with {} bytes: the common prefix differs", p.seq, first_len, len));
                                 }
                             } else if len <= first_len && p.payload[..] != g.first_payload[..len] {
                                 res.violate(P, "content-changed", t, format!("seq {} re-emitted ({} bytes) with bytes that differ from its first emission", p.seq, len));
@@ -281,8 +312,19 @@ pub fn check(sc: &Scenario, out: &RunOutput) -> OracleResult {
                         let gap = t - tp.max(last_new_ack_t.min(t));
                         let _ = gap;
                         let since_last_tx = t - tp;
-                        if since_last_tx + MS < 200 * MS && last_new_ack_t <= tp {
-                            res.violate(P, "timeout-earlier-than-min-rto", t, format!("seq {} timeout-retransmitted {} ms after its previous transmission (RTO is never below 200 ms)", p.seq, since_last_tx / MS));
+                        if let Some(ts) = timer_start {
+                            if t - ts + MS < 200 * MS {
+                                res.violate(P, "timeout-earlier-than-min-rto", t, format!("seq {} timeout-retransmitted {} ms after its previous transmission and only {} ms after the retransmission timer can last have been (re)started at {} (RTO is never below 200 ms); last ACK that left nothing in flight: {:?}", p.seq, since_last_tx / MS, (t - ts) / MS, crate::hist::fmt_t(ts), idle_ack_t.map(crate::hist::fmt_t)));
+                                // F15 context: the timer was left running by an ACK that emptied
+                                // the pipe at least one minimum RTO before this expiry
+                                if idle_ack_t.is_some_and(|ta| ta <= ts && t - ta + MS >= 200 * MS) {
+                                    if let Some(v) = res.violations.last_mut() {
+                                        if v.tag == "timeout-earlier-than-min-rto" && v.t == t {
+                                            v.aux = Some(1);
+                                        }
+                                    }
+                                }
+                            }
                         }
                         // doubling: compare with the previous timeout gap of the same segment when
                         // nothing was acknowledged in between and the segment is not a probe
@@ -304,6 +346,9 @@ pub fn check(sc: &Scenario, out: &RunOutput) -> OracleResult {
                     } else if retransmission && !in_rto_mode {
                         fast_rtx += 1;
                     }
+                    if is_rto || timer_start.is_none() {
+                        timer_start = Some(t);
+                    }
                     // (d) bounded number of transmissions per (sequence number, payload) identity
                     g.tx.push((t, len, is_rto));
                     let same_identity = g.tx.iter().filter(|x| x.1 == len).count();
@@ -314,6 +359,9 @@ pub fn check(sc: &Scenario, out: &RunOutput) -> OracleResult {
                 }
                 codec::ST_FIN => {
                     let is_rto = rto_poll[i];
+                    if is_rto || timer_start.is_none() {
+                        timer_start = Some(t);
+                    }
                     match fin.as_mut() {
                         None => fin = Some((p.seq, vec![(t, is_rto)], None)),
                         Some((_, v, acked)) => {
@@ -362,5 +410,89 @@ pub fn check(sc: &Scenario, out: &RunOutput) -> OracleResult {
     res.hit("retransmission_cap_hit", cap_hit);
     res.hit("probe_resegmented", segs.values().any(|g| g.probe && g.tx.iter().any(|x| x.1 != g.first_payload.len())));
     res.relevant = timeouts > 0 && fast_rtx > 0;
+    res
+}
+
+/// Passive safety clauses on duplex runs (both endpoints real): (e) nothing acknowledged
+/// strictly before is re-emitted (runs without back-pressure), (f) stable content per
+/// sequence number except probe splits.
+pub fn check_duplex(sc: &Scenario, out: &RunOutput) -> OracleResult {
+    use crate::analysis::{endpoint_views, ConnTable, FlowEv};
+    let mut res = OracleResult::default();
+    let h = &out.hist;
+    let ct = ConnTable::build(h);
+    if ct.ambiguous {
+        res.inconclusive = true;
+        return res;
+    }
+    let backpressure = h.fault_counts.get("backpressure").copied().unwrap_or(0) > 0;
+    let mut retx = 0u64;
+    for v in endpoint_views(h, &ct) {
+        let Some(n) = super::c14::node_of(sc, v.me) else { continue };
+        let floor = crate::scen_gen::min_payload(sc.nodes[n].opts.link_mtu(), sc.nodes[n].ipv6);
+        // seq -> (first payload, last len, acked at, probe)
+        let mut segs: BTreeMap<u16, (Vec<u8>, usize, Option<T>, bool)> = BTreeMap::new();
+        let mut max_acked = floor;
+        let mut max_recv = 0usize;
+        for (t, _, ev) in &v.evs {
+            match ev {
+                FlowEv::Deliver(d) => {
+                    let Some(p) = &d.pkt else { continue };
+                    // (a FIN that arrives out of sequence is dropped whole, acknowledgement
+                    // included; this passive check does not model the receive side, so it takes
+                    // no acknowledgement from FINs at all)
+                    if d.corrupted || p.typ == codec::ST_SYN || p.typ == codec::ST_FIN {
+                        continue;
+                    }
+                    if p.typ == codec::ST_DATA {
+                        max_recv = max_recv.max(p.payload.len());
+                    }
+                    for (s, g) in segs.iter_mut() {
+                        if g.2.is_none() && covers(p, *s) {
+                            g.2 = Some(*t);
+                            max_acked = max_acked.max(g.1);
+                        }
+                    }
+                }
+                FlowEv::Emit(e) => {
+                    let Some(p) = &e.pkt else { continue };
+                    if p.typ != codec::ST_DATA {
+                        continue;
+                    }
+                    let len = p.payload.len();
+                    match segs.get_mut(&p.seq) {
+                        None => {
+                            segs.insert(p.seq, (p.payload.clone(), len, None, len > floor));
+                        }
+                        Some(g) => {
+                            retx += 1;
+                            if let Some(ta) = g.2 {
+                                if ta < *t && !backpressure {
+                                    res.violate(P, "retransmitted-after-ack", *t, format!("node {}: seq {} (len {}) emitted at {} although it was acknowledged at {}", n, p.seq, len, crate::hist::fmt_t(*t), crate::hist::fmt_t(ta)));
+                                }
+                            }
+                            let first_len = g.0.len();
+                            if len == first_len {
+                                if p.payload != g.0 {
+                                    res.violate(P, "content-changed", *t, format!("node {}: seq {} re-emitted with the same length {} but different bytes", n, p.seq, len));
+                                }
+                            } else if len != g.1 {
+                                let m = len.min(first_len);
+                                let prefix_ok = p.payload[..m] == g.0[..m];
+                                if !g.3 {
+                                    res.violate(P, "non-probe-resegmented", *t, format!("node {}: seq {} first sent with {} bytes (not larger than the smallest segment size {}: cannot be a size probe) re-emitted with {} bytes", n, p.seq, first_len, floor, len));
+                                } else if !prefix_ok {
+                                    res.violate(P, "probe-recut-not-a-prefix", *t, format!("node {}: probe seq {} first sent with {} bytes re-emitted with {} bytes: the common prefix differs", n, p.seq, first_len, len));
+                                }
+                            }
+                            g.1 = len;
+                        }
+                    }
+                }
+            }
+        }
+    }
+    res.probe("duplex_retransmissions_checked", retx);
+    res.relevant = retx > 0;
     res
 }
